@@ -125,8 +125,10 @@ def loop_header(ev, s, env, depth):
         i0 = A.strip_casts(init)
         if i0['k'] == 'BinaryOperator' and i0.get('op') == '=' and A.strip_casts(i0['ch'][0])['k'] == 'DeclRefExpr' and 'd' in A.strip_casts(i0['ch'][0]):
             var = A.strip_casts(i0['ch'][0])
-    if var is not None and c0 is not None and c0['k'] == 'BinaryOperator' and c0.get('op') == '<' and A.strip_casts(c0['ch'][0]).get('d') == var['d']:
-        return var, ev.val(c0['ch'][1], env, depth)
+    if var is not None and c0 is not None:
+        for (l, op, r) in A.rel_forms(c0, True):
+            if op == '<' and l.get('d') == var['d'] and l['k'] == 'DeclRefExpr':
+                return var, ev.val(r, env, depth)
     if var is not None and c0 is not None and c0['k'] == 'CXXMemberCallExpr' and (c0.get('q') or '').endswith('::HasData') and c0.receiver() is not None \
             and A.strip_casts(c0.receiver()).get('d') == var['d'] and var['ch']:
         ctor = A.strip_casts(var['ch'][0])
